@@ -170,48 +170,89 @@ def escaping_instance_state(prog: Program, classes: List[ClassInfo]) -> List[Tup
     return out
 
 
+LIB_COROUTINES = {("asyncio", "wait_for"), ("asyncio", "gather"), ("asyncio", "sleep"), ("asyncio", "open_connection"), ("asyncio", "wait")}
+_COMMON_METHOD_NAMES = {"read", "write", "close", "get", "put", "send", "connect", "run", "wait", "sleep", "start", "stop", "join", "open", "acquire", "release"}
+
+
+def _async_only_names(prog: Program) -> set:
+    """method names every definition of which in the package is `async def` (and that no sync library object commonly offers)"""
+    cache = prog.__dict__.setdefault("_async_only_names", None)
+    if cache is None:
+        kinds = {}
+        for f in prog.funcs.values():
+            if f.module.is_test or f.cls is None:
+                continue
+            is_coro = f.is_async and not any(isinstance(y, (ast.Yield, ast.YieldFrom)) for y in ast.walk(f.node))
+            kinds.setdefault(f.name, set()).add(is_coro)
+        cache = {n for n, k in kinds.items() if k == {True} and n not in _COMMON_METHOD_NAMES and not n.startswith("__")}
+        prog.__dict__["_async_only_names"] = cache
+    return cache
+
+
 def dropped_coroutines(prog: Program, funcs) -> List[Tuple[str, ast.AST, str]]:
-    """[(function, call node, callee)]: an expression statement that calls a coroutine function of the package without awaiting it (and without
-    handing it to anything): the coroutine object is created and thrown away, the call never runs.  `self.authenticate()` for
-    `await self.authenticate()` is the typical slip - everything the call was meant to do silently does not happen."""
+    """[(function, node, callee)]: a coroutine function is called and the coroutine object is not awaited, scheduled, returned or handed on - it
+    is thrown away (expression statement), unpacked, iterated, or bound once to a name that is then used as if it were the result
+    (attribute / subscript / iteration / arithmetic / comparison / truth test / a builtin taking a value).  The call never runs:
+    `self.authenticate()` for `await self.authenticate()` is the typical slip - everything the call was meant to do silently does not happen.
+
+    Callee resolution: self / cls / super methods, module functions, `self.<attr>.<m>()` through the binding table, `<param>.<m>()` through
+    the parameter's annotation, `<local>.<m>()` for a local built from a package class, asyncio's own coroutine functions, and - last - a
+    method name every definition of which in the package is `async def`."""
     from .helpers import resolve_call as _resolve_call, with_helpers
     out, seen = [], set()
+    async_only = _async_only_names(prog)
 
-    def resolve_call(prog, f, call):
+    def is_coro_fn(t):
+        return t is not None and getattr(t, "is_async", False) and not any(isinstance(y, (ast.Yield, ast.YieldFrom)) for y in ast.walk(t.node))
+
+    def callee(f, call, local_types):
+        """qualified name of the coroutine function this call creates a coroutine of, or None"""
         t = _resolve_call(prog, f, call)
+        if t is not None:
+            return t.qual if is_coro_fn(t) else None
         fn_ = call.func
-        if t is None and isinstance(fn_, ast.Attribute) and isinstance(fn_.value, ast.Attribute) and isinstance(fn_.value.value, ast.Name) and f.cls is not None \
-                and f.params and fn_.value.value.id == f.params[0] and f.kind in ("method", "property", "setter"):
-            # self.<attr>.<method>(): through the classes every store of the attribute constructs (binding table)
+        if isinstance(fn_, ast.Attribute) and isinstance(fn_.value, ast.Name) and (fn_.value.id, fn_.attr) in LIB_COROUTINES:
+            return f"{fn_.value.id}.{fn_.attr}"
+        if not isinstance(fn_, ast.Attribute):
+            return None
+        b_ = fn_.value
+        owners = None
+        if isinstance(b_, ast.Attribute) and isinstance(b_.value, ast.Name) and f.cls is not None and f.params and b_.value.id == f.params[0] \
+                and f.kind in ("method", "property", "setter"):
             from .bindings import attr_types
             try:
-                owners = attr_types(prog, f.cls, fn_.value.attr)
+                owners = attr_types(prog, f.cls, b_.attr)
             except Exception:
-                return None
+                owners = None
+        elif isinstance(b_, ast.Name) and b_.id in local_types:
+            owners = local_types[b_.id]
+        if owners:
             ms = [prog.lookup_method(prog.classes[q], fn_.attr) for q in owners if q in prog.classes]
-            if ms and all(m is not None and getattr(m, "is_async", False) for m in ms):
-                return ms[0]
-        return t
+            if ms and all(m is not None for m in ms):
+                return ms[0].qual if all(is_coro_fn(m) for m in ms) else None
+        if fn_.attr in async_only and not (isinstance(b_, ast.Name) and b_.id in ("asyncio", "loop")):
+            return f"<every definition of {fn_.attr} in the package is a coroutine function>"
+        return None
+
     for f0 in funcs:
         for f in with_helpers(prog, f0):
             if f.qual in seen:
                 continue
             seen.add(f.qual)
+            par = {c: p_ for p_ in ast.walk(f.node) for c in ast.iter_child_nodes(p_)}
+            # what a plain name may hold: a parameter by its annotation, a local by the package class it is constructed from
+            local_types = {}
+            a_ = f.node.args
+            for p_ in a_.posonlyargs + a_.args + a_.kwonlyargs:
+                if p_.annotation is not None:
+                    r_ = prog.resolve_expr(f.module, p_.annotation, f.cls)
+                    if isinstance(r_, ClassInfo):
+                        local_types[p_.arg] = [r_.qual] + [k.qual for k in prog.subclasses(r_) if k is not r_]
             for n in ast.walk(f.node):
-                if isinstance(n, ast.Expr) and isinstance(n.value, ast.Call):
-                    t = resolve_call(prog, f, n.value)
-                    if t is not None and getattr(t, "is_async", False) and not any(isinstance(y, (ast.Yield, ast.YieldFrom)) for y in ast.walk(t.node)):
-                        out.append((f.qual, n, t.qual))
-            # `a, b = coro()` (no await): a coroutine object does not unpack
-            for n in ast.walk(f.node):
-                if isinstance(n, ast.Assign) and len(n.targets) == 1 and isinstance(n.targets[0], (ast.Tuple, ast.List)) and isinstance(n.value, ast.Call):
-                    t = resolve_call(prog, f, n.value)
-                    lib_coro = isinstance(n.value.func, ast.Attribute) and isinstance(n.value.func.value, ast.Name) and n.value.func.value.id == "asyncio" \
-                        and n.value.func.attr in ("wait_for", "gather", "sleep", "open_connection", "wait")
-                    if (t is not None and getattr(t, "is_async", False) and not any(isinstance(y, (ast.Yield, ast.YieldFrom)) for y in ast.walk(t.node))) or lib_coro:
-                        out.append((f.qual, n, t.qual if t is not None else "asyncio." + n.value.func.attr))
-            # `x = coro()` (no await) with x bound once and then used as the result (x.attr / x[i] / iteration / arithmetic / comparison):
-            # the value is the coroutine object, the call never ran
+                if isinstance(n, ast.Assign) and len(n.targets) == 1 and isinstance(n.targets[0], ast.Name) and isinstance(n.value, ast.Call):
+                    r_ = prog.resolve_expr(f.module, n.value.func, f.cls)
+                    if isinstance(r_, ClassInfo):
+                        local_types.setdefault(n.targets[0].id, []).append(r_.qual)
             binds = {}
             for n in ast.walk(f.node):
                 for tg in (n.targets if isinstance(n, ast.Assign) else [n.target] if isinstance(n, (ast.AnnAssign, ast.AugAssign, ast.For, ast.AsyncFor, ast.NamedExpr)) else
@@ -221,24 +262,45 @@ def dropped_coroutines(prog: Program, funcs) -> List[Tuple[str, ast.AST, str]]:
                         if isinstance(nm, ast.Name):
                             binds.setdefault(nm.id, []).append(n)
             params = {a.arg for a in ast.walk(f.node.args) if isinstance(a, ast.arg)}
-            for name, sites in binds.items():
-                n = sites[0]
-                if len(sites) != 1 or name in params or not isinstance(n, ast.Assign) or len(n.targets) != 1 or not isinstance(n.targets[0], ast.Name) \
-                        or not isinstance(n.value, ast.Call):
+            for n in ast.walk(f.node):
+                if not isinstance(n, ast.Call) or isinstance(par.get(n), ast.Await):
                     continue
-                t = resolve_call(prog, f, n.value)
-                if t is None or not getattr(t, "is_async", False) or any(isinstance(y, (ast.Yield, ast.YieldFrom)) for y in ast.walk(t.node)):
+                p_ = par.get(n)
+                how = None
+                if isinstance(p_, ast.Expr):
+                    how = "thrown away"
+                elif isinstance(p_, ast.Assign) and p_.value is n and len(p_.targets) == 1 and isinstance(p_.targets[0], (ast.Tuple, ast.List)):
+                    how = "unpacked"
+                elif isinstance(p_, (ast.For, ast.comprehension)) and p_.iter is n:
+                    how = "iterated"
+                elif isinstance(p_, ast.Assign) and p_.value is n and len(p_.targets) == 1 and isinstance(p_.targets[0], ast.Name):
+                    name = p_.targets[0].id
+                    if len(binds.get(name, [])) == 1 and name not in params:
+                        uses = [u for u in ast.walk(f.node) if isinstance(u, ast.Name) and u.id == name and isinstance(u.ctx, ast.Load)]
+
+                        def value_use(u):
+                            q_ = par.get(u)
+                            return (isinstance(q_, ast.Attribute) and q_.attr not in ("close", "send", "throw", "cr_frame", "cr_running", "cr_await", "cr_code")) \
+                                or (isinstance(q_, ast.Subscript) and q_.value is u) or (isinstance(q_, (ast.For, ast.comprehension)) and q_.iter is u) \
+                                or isinstance(q_, (ast.BinOp, ast.Compare, ast.BoolOp)) or (isinstance(q_, ast.UnaryOp) and isinstance(q_.op, ast.Not)) \
+                                or (isinstance(q_, (ast.If, ast.While, ast.IfExp, ast.Assert)) and q_.test is u) \
+                                or (isinstance(q_, ast.Call) and isinstance(q_.func, ast.Name) and u in q_.args and q_.func.id in
+                                    ("memoryview", "bytes", "bytearray", "len", "int", "float", "str", "list", "tuple", "dict", "set", "sum", "sorted", "min", "max", "bool", "isinstance")) \
+                                or (isinstance(q_, ast.withitem) and q_.context_expr is u)
+                        if any(value_use(u) for u in uses):
+                            how = "used as its result"
+                elif isinstance(p_, ast.Assign) and p_.value is n and len(p_.targets) == 1 and isinstance(p_.targets[0], ast.Attribute) \
+                        and isinstance(p_.targets[0].value, ast.Name) and f.cls is not None and f.params and p_.targets[0].value.id == f.params[0]:
+                    attr_ = p_.targets[0].attr
+                    awaited_somewhere = any(isinstance(w, ast.Await) and isinstance(w.value, ast.Attribute) and w.value.attr == attr_
+                                            for k_ in prog.mro(f.cls) for m_ in k_.methods.values() for w in ast.walk(m_.node))
+                    if not awaited_somewhere:
+                        how = "stored in an attribute nobody awaits"
+                if how is None:
                     continue
-                par = {c: p_ for p_ in ast.walk(f.node) for c in ast.iter_child_nodes(p_)}
-                uses = [u for u in ast.walk(f.node) if isinstance(u, ast.Name) and u.id == name and isinstance(u.ctx, ast.Load)]
-                as_value = [u for u in uses if (isinstance(par.get(u), ast.Attribute) and par[u].attr not in ("close", "send", "throw", "cr_frame", "cr_running", "cr_await", "cr_code"))
-                            or (isinstance(par.get(u), ast.Subscript) and par[u].value is u) or (isinstance(par.get(u), (ast.For, ast.comprehension)) and par[u].iter is u)
-                            or isinstance(par.get(u), (ast.BinOp, ast.Compare))
-                            or (isinstance(par.get(u), ast.Call) and isinstance(par[u].func, ast.Name) and u in par[u].args
-                                and par[u].func.id in ("memoryview", "bytes", "bytearray", "len", "int", "float", "str", "list", "tuple", "dict", "set", "sum", "sorted", "min", "max"))
-                            or (isinstance(par.get(u), ast.withitem) and isinstance(par[u].context_expr, ast.Name))]
-                if as_value:          # (bound once: whatever else is done with it, these uses see the coroutine object)
-                    out.append((f.qual, n, t.qual))
+                q = callee(f, n, local_types)
+                if q is not None:
+                    out.append((f.qual, p_ if isinstance(p_, ast.stmt) else n, q))
     return out
 
 
